@@ -548,6 +548,25 @@ func checkEngineParsing(c *Ctx, r *Report, cl map[string]string) {
 					}
 					return true
 				})
+				// the whole body must be one JSON value of the declared type: json.Unmarshal over the
+				// bytes read rejects anything after the value, a streaming Decoder stops after the first
+				// value and accepts `{"a":1} garbage`
+				usesUnmarshal := false
+				ast.Inspect(fn.Body, func(n ast.Node) bool {
+					if c, ok := n.(*ast.CallExpr); ok {
+						switch exprString(c.Fun) {
+						case "json.Unmarshal":
+							usesUnmarshal = true
+						case "json.NewDecoder":
+							viol = fmt.Sprintf("%s: bindAndValidateBody decodes the body with a streaming json.Decoder: it stops after the first JSON value, so a body with anything after a valid document is bound and the method invoked instead of answering 422", gp.site(c.Pos()))
+							sites = append(sites, gp.site(c.Pos()))
+						}
+					}
+					return true
+				})
+				if !usesUnmarshal && viol == "" {
+					viol = gp.site(fn.Pos()) + ": bindAndValidateBody does not decode with json.Unmarshal over the complete body"
+				}
 				if !found {
 					viol = "no content-type switch with an \"application/json\" case in bindAndValidateBody"
 					sites = []string{gp.site(fn.Pos())}
